@@ -152,6 +152,55 @@ theorem C21_weekday_step (s : Nat) :
 theorem C21_weekday_period (s : Nat) : weekdayFromMonday (s + 7) = weekdayFromMonday s := by
   unfold weekdayFromMonday; omega
 
+/-- the calendar fields of an in-range serial have at most 2, 2 and exactly 4 digits -/
+theorem serial_fields (s : Nat) (h1 : 1 ≤ s) (h2 : s ≤ maxSerial) (t : YMD) (h : fromSerial s = some t) :
+    1 ≤ t.d ∧ t.d ≤ 31 ∧ 1 ≤ t.m ∧ t.m ≤ 12 ∧ 1000 ≤ t.y ∧ t.y < 10000 := by
+  unfold fromSerial minSerial at h
+  have a : ¬ s < 1 := by omega
+  have b : ¬ s > maxSerial := by omega
+  simp only [a, b, if_false, Option.some.injEq] at h
+  have hz1 : 693900 ≤ s + zOfSerialOffset := by unfold zOfSerialOffset excelDateBase; omega
+  have hz2 : s + zOfSerialOffset ≤ 3652364 := by unfold zOfSerialOffset excelDateBase maxSerial at *; omega
+  generalize s + zOfSerialOffset = z at *
+  have hlt : z % 146097 < 146097 := Nat.mod_lt _ (by decide)
+  obtain ⟨hy, hdoe, hm1, hm12, hd1, hd⟩ := tableA_facts (z % 146097) hlt
+  subst h
+  unfold civilOfDays
+  simp only
+  generalize civilInEra (z % 146097) = c at *
+  have hd31 : c.d ≤ 31 := by
+    have := daysInMonth_le (c.y + (if c.m ≤ 2 then 1 else 0)) c.m
+    omega
+  refine ⟨hd1, hd31, hm1, hm12, by omega, ?_⟩
+  by_cases hm : c.m ≤ 2
+  · simp only [hm, if_true]
+    -- a January/February date of year-of-era 399 in era 24 would lie beyond 9999-12-31
+    have : (c.m + 9) % 12 = 10 ∨ (c.m + 9) % 12 = 11 := by omega
+    unfold doeOf at hdoe
+    simp only at hdoe
+    rcases this with e | e <;> rw [e] at hdoe <;> omega
+  · simp only [hm, if_false]; omega
+
+/-- **C21 (date number formats agree with the correspondence).** For every supported serial the
+    layout `dd/mm/yyyy` (tokens `dd`, `mm`, `yyyy` of the number-format language) can be read back to
+    the calendar date of the serial, whose serial number is the one we started from; the short year
+    `yy` is the last two digits of the year and is always two digits wide. -/
+theorem C21_format_roundtrip (s : Nat) (h1 : 1 ≤ s) (h2 : s ≤ maxSerial) :
+    ∃ t, fromSerial s = some t ∧ readDMY (layoutDMY t) = t ∧
+      toSerial (readDMY (layoutDMY t)) = some (s : Int) ∧
+      (tokYY t).length = 2 ∧ read2 (tokYY t) = t.y % 100 ∧ read4 (tokYYYY t) % 100 = read2 (tokYY t) := by
+  obtain ⟨t, ht, _, hs⟩ := C21_serial_roundtrip s h1 h2
+  obtain ⟨hd1, hd31, hm1, hm12, hy1, hy2⟩ := serial_fields s h1 h2 t ht
+  have hr : readDMY (layoutDMY t) = t := by
+    unfold readDMY layoutDMY tokDD tokMM tokYYYY
+    simp only
+    rw [read4_digits t.y hy1 hy2, read2_padded2 t.m (by omega), read2_padded2 t.d (by omega)]
+  refine ⟨t, ht, hr, by rw [hr]; exact hs, by simp [tokYY, digits2], ?_, ?_⟩
+  · unfold tokYY; exact read2_digits2 _ (Nat.mod_lt _ (by decide))
+  · unfold tokYY tokYYYY; rw [read4_digits t.y hy1 hy2, read2_digits2 _ (Nat.mod_lt _ (by decide))]
+
+example : tokYY ⟨2005, 3, 4⟩ = [0, 5] ∧ layoutDMY ⟨2005, 3, 4⟩ = ([0, 4], [0, 3], [2, 0, 0, 5]) := by decide
+
 /-- non-vacuity: a leap day inside the range satisfies the hypotheses -/
 example : valid ⟨2020, 2, 29⟩ = true ∧ toSerial ⟨2020, 2, 29⟩ = some 43890 := by decide
 
